@@ -158,8 +158,13 @@ def shapeOf (env : Env) : Node → V → Option Shape
         | _, some c => unknown.map (fun (kx : V × V) => ([kx.1.seg], c, kx.2))
         | _, none => []
       let strictBad := mode == .strict && !unknown.isEmpty
-      let kept := (shape.filter (fun (f : Field) => has es f.name)).length
-                    + (if mode == .passthrough then unknown.length else 0)
+      -- the size checks look at the keys kept in the result: accepted fields, and (passthrough) the
+      -- unknown keys that pass the catchall
+      let kept := (fieldAsked.filter (fun a => acc env a.2.1 a.2.2)).length
+                    + (if mode == .passthrough then
+                        (unknown.filter (fun (kx : V × V) => match catchall with
+                                                             | some c => acc env c kx.2 | none => true)).length
+                       else 0)
       { asked := fieldAsked ++ unkAsked,
         ownOK := missing.isEmpty && explicitNil.isEmpty && !strictBad && sizeOK cs kept,
         ownPaths := missing.map (fun (f : Field) => [Seg.key f.name])
